@@ -79,6 +79,19 @@ def expression_cases(tier):
                 cases.append(("bin", "+", L(t, v), L("string", s)))
         cases.append(("bin", "+", L("string", s), ("bin", "+", L("int", 1), L("int", 2))))
         cases.append(("bin", "+", ("bin", "+", L("string", s), L("int", 1)), L("int", 2)))
+    # result-TYPE witnesses: a long result that itself fits 32 bits is multiplied/added so that the true value only fits 64 bits
+    for op in ("+", "-", "*", "%"):
+        for a, b in ((7, 3), (5, 2), (1999999999, 3000000000) if op in ("%", "-") else (6, 5)):
+            for lt, rt in (("int", "long"), ("long", "int"), ("long", "long")):
+                if (lt == "int" and abs(a) > 2**31 - 1) or (rt == "int" and abs(b) > 2**31 - 1):
+                    continue
+                inner = ("bin", op, L(lt, a), L(rt, b))
+                cases.append(("bin", "*", inner, L("int", 2000000000)))
+                cases.append(("bin", "+", ("bin", "*", inner, L("int", 1000000000)), L("int", 2000000000)))
+                cases.append(("bin", "*", inner, inner if op != "-" else L("int", 2000000011)))
+    for v in (3, 70000):
+        cases.append(("bin", "*", ("cast", "long", L("int", v)), L("int", 2000000000)))
+        cases.append(("bin", "*", ("un", "-", L("long", v)), L("int", 2000000000)))
     # two-level nestings over a reduced value set
     small = {"int": [-1, 2, 5], "long": [2, 5000000000], "float": [0.5, 2.0]}
     ops2 = ARITH + (CMP if tier == "thorough" else ["<", "=="])
